@@ -2,7 +2,7 @@
 # usage: matrix.sh <seed-dir-root> [props...]   prints, per seeded change, which checks report it
 root=${1:-/verif/seeded}; shift
 props=${@:-$(/verif/bin/mpbcheck list)}
-wt=/tmp/mutwt
+wt=${WT:-/tmp/mutwt}
 [ -d $wt ] || git -C /repo worktree add --detach $wt HEAD -q
 for d in $(ls -d $root/*/ | sort); do
   m=$(basename $d)
